@@ -1,8 +1,8 @@
 package props
 
 import (
-	"go/token"
 	"fmt"
+	"go/token"
 	"go/types"
 	"sort"
 	"strings"
@@ -171,11 +171,11 @@ func checkC06(c *core.Ctx, r *core.Report) {
 	r.Floor("REWIND", "types implementing processor", len(impls), 20)
 
 	exceptions := map[string]string{
-		"scrollProcessor.scrollFrom":  "the scroller is appended as the last DataProcessor of a chain and is never upstream of a rewinding two-pass command",
-		"inputlookupProcessor.qid":    "per-query constant: the query id of the batches flowing through; the same on every pass",
-		"inputlookupProcessor.limit":  "per-query constant: a default that is filled in once and never changes afterwards",
-		"gentimesProcessor.qid":       "per-query constant",
-		"gentimesProcessor.limit":     "per-query constant",
+		"scrollProcessor.scrollFrom": "the scroller is appended as the last DataProcessor of a chain and is never upstream of a rewinding two-pass command",
+		"inputlookupProcessor.qid":   "per-query constant: the query id of the batches flowing through; the same on every pass",
+		"inputlookupProcessor.limit": "per-query constant: a default that is filled in once and never changes afterwards",
+		"gentimesProcessor.qid":      "per-query constant",
+		"gentimesProcessor.limit":    "per-query constant",
 	}
 	memoOK := func(f *types.Var) bool {
 		// memo fields: compiled regular expressions and similar caches keyed by the query text, not by the data
